@@ -485,8 +485,8 @@ fn seq_family(prop: &str) -> i32 {
     // C02 quantifies over any history: also the ones in which a backend request failed, the
     // backend healed and flush_meta then returned Ok
     let mut fault_json = json!(null);
-    if prop == "C02" {
-        let (v, j) = faulted_histories_part(thorough, "C02");
+    if prop == "C02" || prop == "C18" {
+        let (v, j) = faulted_histories_part(thorough, prop);
         run.add_all(v);
         fault_json = j;
     }
@@ -584,6 +584,10 @@ pub fn sched_curated(g: &Geo) -> Vec<(&'static str, &'static str, Vec<Op>, Vec<V
         // the slice a reader has locked is evicted by other lookups; a discard then works on a second copy of it
         ("reader-slice-evicted-under-read", "libfmt", vec![w(0, cs, 0x51), w(tb, bs, 0x52), w(2 * tb.min(g.vsize() / 4), bs, 0x53), Op::Flush], vec![vec![r(0, cs)], vec![r(tb, bs), r(2 * tb.min(g.vsize() / 4), bs), Op::Discard { off: 0, len: cs }, w(2 * cs, cs, 0x11)]]),
         ("writer-slice-evicted-under-write", "libfmt", vec![w(0, cs, 0x51), w(tb, bs, 0x52), w(2 * tb.min(g.vsize() / 4), bs, 0x53), Op::Flush], vec![vec![w(0, bs, 0x12)], vec![r(tb, bs), r(2 * tb.min(g.vsize() / 4), bs), Op::Discard { off: 0, len: cs }, w(2 * cs, cs, 0x11)]]),
+        // a discard that waits for the slice lock (a reader holds it), an in-place writer of the same cluster that
+        // starts meanwhile, and an allocating writer that may get the released cluster
+        ("reader-vs-discard-vs-inplace-write-vs-alloc", "libfmt", vec![w(0, cs, 0x51), Op::Flush], vec![vec![r(0, cs)], vec![Op::Discard { off: 0, len: cs }], vec![w(0, bs, 0x11)], vec![w(2 * cs, cs, 0x12)]]),
+        ("flush-vs-discard-vs-inplace-write-vs-alloc", "libfmt", vec![w(0, cs, 0x51), Op::Flush, w(cs, cs, 0x52)], vec![vec![Op::Flush], vec![Op::Discard { off: 0, len: cs }], vec![w(0, bs, 0x11)], vec![w(2 * cs, cs, 0x12)]]),
         // shrink vs writers
         ("shrink-vs-writers", "libfmt", vec![w(0, cs, 0x51)], vec![vec![Op::Shrink], vec![w(cs, cs, 0x11)], vec![w(tb, bs, 0x12)]]),
         // write dirtying metadata while a flush is in progress, then nothing else (C18)
@@ -644,6 +648,22 @@ pub fn growth_sched_scenarios() -> Vec<SchedScenario> {
     ];
     for (name, setup, tasks) in rt_scn {
         out.push(SchedScenario { name: name.into(), img: rt.clone(), cfg: g.cfg_small(), cfg_name: "small".into(), setup, tasks, fused: true });
+    }
+    // a flush with two refcount passes (refcount block 1 created since the last flush: dirty
+    // reftable block) racing writes that take a hole in block 0, the last two clusters of block 1
+    // and then need block 2, with a 2-slice refblock cache (the evicted slice is dirty)
+    {
+        let g = crate::extra::g9_wide(8);
+        let img = crate::images::lib_formatted(g.cluster_bits, g.order, g.vsize());
+        out.push(SchedScenario {
+            name: "flush-two-refcount-passes-vs-writes-creating-refblock".into(),
+            img,
+            cfg: g.cfg_small(),
+            cfg_name: "small".into(),
+            setup: vec![w(0, 119 * cs, 0x51), Op::Discard { off: 10 * cs, len: cs }],
+            tasks: vec![vec![Op::Flush], vec![w(119 * cs, cs, 0x11), w(120 * cs, cs, 0x12), w(121 * cs, cs, 0x13), w(122 * cs, cs, 0x14)]],
+            fused: true,
+        });
     }
     let l1 = crate::extra::short_l1_image();
     let g = crate::extra::g9_wide(192);
@@ -994,7 +1014,7 @@ pub fn sched_family(prop: &str) -> i32 {
         scenarios.extend(duo2_scenarios(&g, &["Xdirty", "XYcold"]));
     }
     // metadata growth racing other calls (slow executions: 2 MiB images): one of each kind in the quick tier
-    scenarios.extend(growth_sched_scenarios().into_iter().filter(|s| thorough || s.name.ends_with("-vs-flush")));
+    scenarios.extend(growth_sched_scenarios().into_iter().filter(|s| thorough || s.name.ends_with("-vs-flush") || s.name.starts_with("flush-two-refcount-passes")));
     if let Ok(f) = std::env::var("QMC_ONLY") {
         scenarios.retain(|s| s.name.contains(&f));
     }
@@ -1118,29 +1138,42 @@ pub fn crash_family(prop: &str) -> i32 {
         scen.push(j);
     }
     {
-        // creation of the refcount block behind the last entry of a refcount-table flush block
+        // metadata growth inside the crash family: creation of the refcount block behind the last entry
+        // of a refcount-table flush block (and, with the 70-cluster write, relocation of the refcount
+        // table while that block's entry is still dirty), relocation of the refcount table, relocation
+        // of a two-cluster L1 table whose old clusters are reused at once
         let gw = crate::extra::g9_wide(140);
-        let img = crate::extra::rb63_edge_image();
-        let cs = gw.cs();
+        let (cs, tb) = (gw.cs(), gw.tb());
         let w = |off: u64, len: u64, tag: u32| Op::Write { off, len: len as usize, tag };
-        let alpha = vec![w(8000 * cs, cs, 1), w(8001 * cs, cs, 2), w(8010 * cs, 3 * cs, 3), Op::Flush, Op::Sync];
-        let mut sc = SeqScenario::new(img, gw.cfg_small(), gw.cfg_alt(), "small", alpha, oracles.clone());
-        sc.full_sweep = false;
-        let lim = BfsLimits { depth: if thorough { 4 } else { 3 }, max_states: 3_000_000, deadline: deadline_in(if thorough { 200 } else { 8 }) };
-        let st = bfs(&sc, &lim, &mut viol);
-        states += st.states;
-        trans += st.transitions;
-        windows += st.counters[1];
-        images_n += st.counters[2];
-        distinct += st.counters[3];
-        inexhaustive += st.counters[4];
-        if st.capped || st.depth_completed < st.depth_target {
-            all_complete = false;
+        let growth: Vec<(ImageSet, Geo, Vec<Op>, usize, usize)> = vec![
+            (crate::extra::rb63_edge_image(), crate::extra::g9_wide(140), vec![w(8000 * cs, cs, 1), w(8001 * cs, cs, 2), w(8010 * cs, 3 * cs, 3), w(8200 * cs, 70 * cs, 6), Op::Flush, Op::Sync], if thorough { 4 } else { 3 }, 1),
+            (crate::extra::rt_edge_image(), crate::extra::g9_wide(140), vec![w(8000 * cs, 3 * cs, 1), w(8010 * cs, cs, 2), Op::Flush, Op::Sync], 3, 3),
+            (crate::extra::short_l1_two_image(), crate::extra::g9_wide(192), vec![w(130 * tb, cs, 4), w(64 * tb, cs, 2), w(191 * tb, 2 * cs, 5), Op::Flush, Op::Sync], 3, 3),
+        ];
+        for (img, gw, alpha, depth, crash_k) in growth {
+            let mut sc = SeqScenario::new(img, gw.cfg_small(), gw.cfg_alt(), "small", alpha, oracles.clone());
+            sc.full_sweep = false;
+            if crash_k < 3 {
+                // windows of the 70-cluster write: all-lost / all-kept and single-block deviations
+                sc.crash_k = crash_k;
+                sc.crash_cap = 1 << 8;
+            }
+            let lim = BfsLimits { depth, max_states: 3_000_000, deadline: deadline_in(if thorough { 200 } else { 8 }) };
+            let st = bfs(&sc, &lim, &mut viol);
+            states += st.states;
+            trans += st.transitions;
+            windows += st.counters[1];
+            images_n += st.counters[2];
+            distinct += st.counters[3];
+            inexhaustive += st.counters[4];
+            if st.capped || st.depth_completed < st.depth_target {
+                all_complete = false;
+            }
+            let mut j = stats_json(&crate::hist::Scenario::name(&sc), &st);
+            j["crash_images"] = json!(st.counters[2]);
+            j["distinct_images_checked"] = json!(st.counters[3]);
+            scen.push(j);
         }
-        let mut j = stats_json(&crate::hist::Scenario::name(&sc), &st);
-        j["crash_images"] = json!(st.counters[2]);
-        j["distinct_images_checked"] = json!(st.counters[3]);
-        scen.push(j);
     }
     run.add_all(viol);
     // crash states of concurrent histories (C04 quantifies over schedules too)
@@ -1281,6 +1314,17 @@ pub fn faulted_histories_part(thorough: bool, prop: &str) -> (Vec<Violation>, Va
                             v.extend(sc.run(h, &Plan::Ids(vec![i]), &mut st));
                         }
                         v.extend(sc.run(h, &Plan::Kind('F'), &mut st));
+                        // every write of one flush's write-back fails together, and every pair of them
+                        for ids in sc.flush_write_ids(h) {
+                            v.extend(sc.run(h, &Plan::Ids(ids.clone()), &mut st));
+                            if ids.len() <= 6 {
+                                for a in 0..ids.len() {
+                                    for b in a + 1..ids.len() {
+                                        v.extend(sc.run(h, &Plan::Ids(vec![ids[a], ids[b]]), &mut st));
+                                    }
+                                }
+                            }
+                        }
                     }
                     v.retain(|x| x.prop == prop);
                     let mut seen = std::collections::HashSet::new();
@@ -1599,6 +1643,22 @@ pub fn alloc_check() -> i32 {
     let (mut states, mut trans, mut outcomes) = (0u64, 0u64, 0u64);
     let mut samples = vec![];
     let mut complete = true;
+    // L1 relocation hands the old table's clusters back to the allocator while its neighbours stay in use
+    let reloc: Vec<(Geo, ImageSet)> = vec![(crate::extra::g9_wide(192), crate::extra::short_l1_image()), (crate::extra::g9_wide(192), crate::extra::short_l1_two_image())];
+    for (g, img) in reloc {
+        let (cs, tb) = (g.cs(), g.tb());
+        let w = |off: u64, len: u64, tag: u32| Op::Write { off, len: len as usize, tag };
+        let alphabet = vec![w(64 * tb, cs, 1), w(130 * tb, cs, 2), w(2 * cs, cs, 3), Op::Alloc(1), Op::Alloc(3), Op::Discard { off: 0, len: cs }, Op::Flush, Op::Reopen];
+        let sc = AllocScenario { img, cfg: g.cfg_small(), cfg_name: "small".into(), alphabet, prop: "C08".into() };
+        let st = bfs(&sc, &BfsLimits { depth: if thorough { 4 } else { 3 }, max_states: 2_000_000, deadline: deadline_in(if thorough { 200 } else { 8 }) }, &mut viol);
+        states += st.states;
+        trans += st.transitions;
+        outcomes += st.distinct_outcomes;
+        if st.capped || st.depth_completed < st.depth_target {
+            complete = false;
+        }
+        scen.push(stats_json(&crate::hist::Scenario::name(&sc), &st));
+    }
     for (g, img, cfgn, depth, secs) in plans {
         let sc = AllocScenario { img, cfg: cfg_of(&g, cfgn), cfg_name: cfgn.into(), alphabet: alloc_alphabet(&g), prop: "C08".into() };
         let st = bfs(&sc, &BfsLimits { depth, max_states: 2_000_000, deadline: deadline_in(secs) }, &mut viol);
@@ -1788,6 +1848,23 @@ pub fn growth_check() -> i32 {
     let mut viol: Vec<Violation> = vec![];
     let mut scen = vec![];
     let (mut states, mut trans, mut outcomes, mut crash_imgs) = (0u64, 0u64, 0u64, 0u64);
+    // refcount-table relocation with clusters bigger than a block (16 MiB image: content oracles, short histories)
+    {
+        let g = crate::extra::g10_wide(136);
+        let img = crate::extra::rt_edge_1k_image();
+        let k = g.cs();
+        let alpha = vec![w(17_000 * k, 3 * k, 1), w(17_010 * k, k, 2), w(17_020 * k, 6 * k, 3), Op::Flush, Op::Reopen];
+        let mut sc = SeqScenario::new(img.clone(), g.cfg_small(), g.cfg_alt(), "small", alpha, Oracles { c01: true, c02: true, c03: true, c16: true, ..Default::default() });
+        sc.relabel = Some("C12".into());
+        sc.relabel_all = true;
+        sc.full_sweep = false;
+        let lim = BfsLimits { depth: if thorough { 4 } else { 3 }, max_states: 100_000, deadline: deadline_in(if thorough { 300 } else { 15 }) };
+        let st = bfs(&sc, &lim, &mut viol);
+        states += st.states;
+        trans += st.transitions;
+        outcomes += st.distinct_outcomes;
+        scen.push(stats_json(&format!("{} content", img.name), &st));
+    }
     let mut samples = vec![];
     let mut complete = true;
     for (img, alpha, depth, secs, full) in plans {
@@ -1796,9 +1873,13 @@ pub fn growth_check() -> i32 {
             ("content", Oracles { c01: true, c02: true, c03: true, c16: true, ..Default::default() }),
             ("crash", Oracles { c01: true, c04: true, c05: true, ..Default::default() }),
         ] {
-            // crash windows of a 70-cluster write hold > 2^14 images of 2 MiB each: content oracles only
-            let alpha: Vec<Op> = alpha.iter().filter(|o| oname != "crash" || !matches!(o, Op::Write { len, .. } if *len > 8 * 512)).cloned().collect();
             let mut sc = SeqScenario::new(img.clone(), g.cfg_small(), g.cfg_alt(), "small", alpha.clone(), oracles);
+            if alpha.iter().any(|o| matches!(o, Op::Write { len, .. } if *len > 8 * 512)) {
+                // crash windows of a 70-cluster write hold far more than 2^14 images of 2 MiB each:
+                // all-lost / all-kept and every single-block deviation from both
+                sc.crash_k = 1;
+                sc.crash_cap = 1 << 8;
+            }
             sc.relabel = Some("C12".into());
             sc.relabel_all = true;
             sc.full_sweep = full;
